@@ -297,318 +297,10 @@ def same_up_to_none(a, b):
 
 
 # ============================================================================ library networks (purity validation)
-def make_float_modules(pym):
-    import scipy.sparse as sps
-
-    class MatAsm(pym.Module):
-        """A(x) = A0 + sum_i x_i A_i (dense ndarray or scipy csc), the matrix class is fixed by the recipe"""
-        def _prepare(self, A0, As, sparse):
-            self.A0, self.As, self.sparse = A0, As, sparse
-
-        def _response(self, x):
-            A = self.A0 + sum(xi * Ai for xi, Ai in zip(x, self.As))
-            return sps.csc_matrix(A) if self.sparse else np.array(A)
-
-        def _sensitivity(self, dA):
-            D = dA.todense() if hasattr(dA, 'todense') else np.asarray(dA)
-            return np.array([float(np.sum(np.asarray(D) * Ai)) for Ai in self.As])
-
-    class SqSum(pym.Module):
-        def _response(self, u):
-            return float(np.sum(np.asarray(u) ** 2))
-
-        def _sensitivity(self, dg):
-            return 2 * np.asarray(self.sig_in[0].state) * dg
-
-    class Frob(pym.Module):
-        """g = sum(Wt * M) for a (possibly np.matrix / sparse) matrix M"""
-        def _prepare(self, Wt):
-            self.Wt = Wt
-
-        def _response(self, M):
-            M = M.toarray() if hasattr(M, 'toarray') else np.asarray(M)
-            return float(np.sum(self.Wt * M))
-
-        def _sensitivity(self, dg):
-            return self.Wt * dg
-
-    class Cube(pym.Module):
-        def _response(self, x):
-            return x ** 3
-
-        def _sensitivity(self, dy):
-            return 3 * self.sig_in[0].state ** 2 * dy
-    return dict(MatAsm=MatAsm, SqSum=SqSum, Frob=Frob, Cube=Cube)
-
-
-def mat_family(rng, n, nd, cls):
-    """A0 and A_i such that A0 + sum x_i A_i stays in class `cls` and well conditioned for x in [0.5, 2]"""
-    def sym(M):
-        return (M + M.T) / 2
-    G = [rng.standard_normal((n, n)) for _ in range(nd)]
-    if cls == 'spd':
-        A0 = 6.0 * np.eye(n)
-        As = [0.3 * g @ g.T / n for g in G]
-    elif cls == 'indef':
-        d = np.array([(4.0 + i) * (1 if i % 2 == 0 else -1) for i in range(n)])
-        A0 = np.diag(d)
-        As = [0.15 * sym(g) for g in G]
-    else:
-        A0 = 6.0 * np.eye(n) + 0.8 * np.triu(rng.standard_normal((n, n)), 1)
-        As = [0.15 * g for g in G]
-    return A0, As
-
-
-RECIPES = ['linsolve-dense-spd', 'linsolve-dense-indef', 'linsolve-dense-general', 'linsolve-sparse-spd',
-           'linsolve-sparse-indef', 'linsolve-sparse-general', 'stiffness-linsolve', 'assemble-general',
-           'filterconv', 'densityfilter', 'overhang', 'soe', 'soe-general-dense', 'static-condensation',
-           'static-condensation-dense', 'eigensolve', 'eigensolve-gen', 'eigensolve-sparse', 'eigensolve-sparse-shift',
-           'scaling-constraint', 'pnorm-undamped']
-CONTROLS = ['control:scaling-objective', 'control:aggscaling-damped']
-
-
-def build_lib(pym, fm, recipe, rs):
-    """returns dict(sigs: name->Signal (all observed), inputs: name->sampler(rng)->array, seedable: [names], net)
-    rs: numpy RandomState-like seeded generator used ONLY for the fixed data of the recipe (same for history and fresh)"""
-    S = pym.Signal
-    import scipy.sparse as sps
-    sigs, inputs, seedable = {}, {}, []
-
-    def design(n):
-        return lambda g: 0.5 + 1.5 * g.random(n)
-    if recipe.startswith('linsolve-'):
-        _, storage, cls = recipe.split('-')
-        n, nd = 5, 3
-        A0, As = mat_family(rs, n, nd, cls)
-        x, b = S('x'), S('b')
-        mA = fm['MatAsm'](x, S('A'), A0, As, storage == 'sparse')
-        mS = pym.LinSolve([mA.sig_out[0], b], S('u'))
-        mG = fm['SqSum'](mS.sig_out[0], S('g'))
-        sigs = dict(x=x, b=b, A=mA.sig_out[0], u=mS.sig_out[0], g=mG.sig_out[0])
-        inputs = dict(x=design(nd), b=lambda g: g.standard_normal((n,) if g.random() < 0.4 else (n, int(g.integers(1, 4)))))
-        seedable = ['g', 'u']
-        net = pym.Network(mA, mS, mG)
-    elif recipe in ('stiffness-linsolve', 'assemble-general'):
-        dom = pym.DomainDefinition(2, 2)
-        x, f = S('x'), S('f')
-        bc = np.array([0, 1, 5])      # node 0 fixed, node 2 (on the x axis) fixed in y: no rigid body mode left
-        if recipe == 'stiffness-linsolve':
-            mK = pym.AssembleStiffness(x, S('K'), dom, bc=bc)
-        else:
-            g = rs.standard_normal((8, 8))
-            mK = pym.AssembleGeneral(x, S('K'), dom, element_matrix=g @ g.T + 8 * np.eye(8), bc=bc,
-                                     add_constant=sps.identity(2 * dom.nnodes, format='csc') * 0.5)
-        mS = pym.LinSolve([mK.sig_out[0], f], S('u'))
-        mC = pym.EinSum([mS.sig_out[0], f], S('c'), expression='i,i->')
-        sigs = dict(x=x, f=f, K=mK.sig_out[0], u=mS.sig_out[0], c=mC.sig_out[0])
-        inputs = dict(x=design(dom.nel), f=lambda g: g.standard_normal(2 * dom.nnodes))
-        seedable = ['c', 'u']
-        net = pym.Network(mK, mS, mC)
-    elif recipe in ('filterconv', 'densityfilter', 'overhang'):
-        dom = pym.DomainDefinition(4, 3)
-        x = S('x')
-        if recipe == 'filterconv':
-            m1 = pym.FilterConv(x, S('y'), dom, radius=1.5)
-        elif recipe == 'densityfilter':
-            m1 = pym.DensityFilter(x, S('y'), dom, radius=1.6)
-        else:
-            m1 = pym.OverhangFilter(x, S('y'), dom, direction=['+y', '-y', '+x', '-x'][int(rs.integers(0, 4))])
-        m2 = fm['Cube'](m1.sig_out[0], S('z'))
-        m3 = fm['SqSum'](m2.sig_out[0], S('g'))
-        sigs = dict(x=x, y=m1.sig_out[0], z=m2.sig_out[0], g=m3.sig_out[0])
-        inputs = dict(x=lambda g: 0.05 + 0.9 * g.random(dom.nel))
-        seedable = ['g', 'y', 'z']
-        net = pym.Network(m1, m2, m3)
-    elif recipe in ('soe', 'soe-general-dense', 'static-condensation', 'static-condensation-dense'):
-        n, nd = 6, 3
-        A0, As = mat_family(rs, n, nd, 'general' if recipe == 'soe-general-dense' else 'spd')
-        x = S('x')
-        mA = fm['MatAsm'](x, S('A'), A0, As, not recipe.endswith('-dense'))
-        if recipe.startswith('soe'):
-            bf, xp = S('bf'), S('xp')
-            kw = dict(prescribed=np.array([1, 4])) if rs.random() < 0.5 else dict(free=np.array([0, 2, 3, 5]))
-            mS = pym.SystemOfEquations([mA.sig_out[0], bf, xp], [S('xx'), S('bb')], **kw)
-            mG = fm['SqSum'](mS.sig_out[0], S('g'))
-            mH = fm['SqSum'](mS.sig_out[1], S('h'))
-            sigs = dict(x=x, bf=bf, xp=xp, A=mA.sig_out[0], xx=mS.sig_out[0], bb=mS.sig_out[1], g=mG.sig_out[0], h=mH.sig_out[0])
-            inputs = dict(x=design(nd), bf=lambda g: g.standard_normal(4), xp=lambda g: g.standard_normal(2))
-            seedable = ['g', 'h', 'xx', 'bb']
-            net = pym.Network(mA, mS, mG, mH)
-        else:
-            mS = pym.StaticCondensation(mA.sig_out[0], S('Ared'), main=np.array([0, 3]), free=np.array([1, 2, 4, 5]))
-            mG = fm['Frob'](mS.sig_out[0], S('g'), rs.standard_normal((2, 2)))
-            sigs = dict(x=x, A=mA.sig_out[0], Ared=mS.sig_out[0], g=mG.sig_out[0])
-            inputs = dict(x=design(nd))
-            seedable = ['g']
-            net = pym.Network(mA, mS, mG)
-    elif recipe in ('eigensolve-sparse', 'eigensolve-sparse-shift'):
-        n, nd = 12, 3
-        A0, As = mat_family(rs, n, nd, 'spd')
-        A0 = A0 + np.diag(np.arange(n) * 1.3)
-        x = S('x')
-        mA = fm['MatAsm'](x, S('A'), A0, As, True)
-        mE = pym.EigenSolve(mA.sig_out[0], [S('lam'), S('Q')], nmodes=3,
-                            **(dict(sigma=5.1) if recipe.endswith('shift') else {}))
-        mG = fm['SqSum'](mE.sig_out[0], S('g'))
-        sigs = dict(x=x, A=mA.sig_out[0], lam=mE.sig_out[0], Q=mE.sig_out[1], g=mG.sig_out[0])
-        inputs = dict(x=design(nd))
-        seedable = ['g', 'lam', 'Q']
-        net = pym.Network(mA, mE, mG)
-    elif recipe in ('eigensolve', 'eigensolve-gen'):
-        n, nd = 4, 3
-        A0, As = mat_family(rs, n, nd, 'indef' if recipe == 'eigensolve' else 'spd')
-        A0 = A0 + np.diag(np.arange(n) * 1.7)        # well separated eigenvalues
-        x = S('x')
-        mA = fm['MatAsm'](x, S('A'), A0, As, False)
-        ins = [mA.sig_out[0]]
-        mods = [mA]
-        sigs = dict(x=x, A=mA.sig_out[0])
-        if recipe == 'eigensolve-gen':
-            B0, Bs = mat_family(rs, n, nd, 'spd')
-            mB = fm['MatAsm'](x, S('Bm'), B0, Bs, False)
-            ins.append(mB.sig_out[0]); mods.append(mB); sigs['Bm'] = mB.sig_out[0]
-        mE = pym.EigenSolve(ins, [S('lam'), S('Q')])
-        mG = fm['SqSum'](mE.sig_out[0], S('g'))
-        mods += [mE, mG]
-        sigs.update(lam=mE.sig_out[0], Q=mE.sig_out[1], g=mG.sig_out[0])
-        inputs = dict(x=design(nd))
-        seedable = ['g', 'lam', 'Q']
-        net = pym.Network(*mods)
-    elif recipe in ('scaling-constraint', 'control:scaling-objective'):
-        x = S('x')
-        m1 = fm['SqSum'](x, S('v'))
-        m2 = pym.Scaling(m1.sig_out[0], S('y'), scaling=10.0, **(dict(maxval=3.0) if recipe == 'scaling-constraint' else {}))
-        sigs = dict(x=x, v=m1.sig_out[0], y=m2.sig_out[0])
-        inputs = dict(x=lambda g: 0.5 + g.random(4))
-        seedable = ['y']
-        net = pym.Network(m1, m2)
-    elif recipe in ('pnorm-undamped', 'control:aggscaling-damped'):
-        x = S('x')
-        m1 = pym.PNorm(x, S('y'), p=4, scaling=pym.AggScaling('max', damping=0.0 if recipe == 'pnorm-undamped' else 0.6))
-        sigs = dict(x=x, y=m1.sig_out[0])
-        inputs = dict(x=lambda g: 0.5 + g.random(5))
-        seedable = ['y']
-        net = pym.Network(m1)
-    else:
-        raise ValueError(recipe)
-    return dict(sigs=sigs, inputs=inputs, seedable=seedable, net=net)
-
-
-def canon(v):
-    """state / sensitivity -> dense float (or complex) ndarray, or None"""
-    if v is None:
-        return None
-    if hasattr(v, 'todense') and not isinstance(v, np.ndarray):
-        v = v.todense()
-    if hasattr(v, 'toarray'):
-        v = v.toarray()
-    return np.array(v, dtype=complex if np.iscomplexobj(v) else float)
-
-
-def close(a, b, tol=1e-9):
-    """None = zero; otherwise same shape and |a - b| <= tol * max(1, |a|, |b|)"""
-    za = a is None or not np.any(a)
-    zb = b is None or not np.any(b)
-    if za and zb:
-        return True
-    if a is None or b is None:
-        return False
-    if a.shape != b.shape:
-        return False
-    scale = max(1.0, float(np.max(np.abs(a))), float(np.max(np.abs(b))))
-    return bool(np.max(np.abs(a - b)) <= tol * scale)
-
-
-def lib_history(g, net, nops):
-    """random admissible op list; values are drawn lazily when applied"""
-    ops, fresh = [], False
-    names = sorted(net['inputs'])
-    for _ in range(nops):
-        r = g.random()
-        if r < 0.22:
-            ops.append(('set', names[int(g.integers(0, len(names)))])); fresh = False
-        elif r < 0.47:
-            ops.append(('resp',)); fresh = True
-        elif r < 0.67 and fresh:
-            ops.append(('seed', net['seedable'][int(g.integers(0, len(net['seedable'])))]))
-        elif r < 0.85 and fresh:
-            ops.append(('sens',))
-        else:
-            ops.append(('reset',))
-    return ops
-
-
-def run_lib(pym, fm, recipe, seed, nops):
-    """history run vs fresh run; returns list of failed predicates (strings) and a replayable description"""
-    g = np.random.default_rng(seed)
-    data_seed = int(g.integers(0, 2 ** 31))
-    net = build_lib(pym, fm, recipe, np.random.default_rng(data_seed))
-    cur = {}
-    for k in sorted(net['inputs']):
-        cur[k] = net['inputs'][k](g)
-        net['sigs'][k].state = np.array(cur[k], copy=True)
-    ops = lib_history(g, net, nops)
-    log = []
-    for op in ops:
-        if op[0] == 'set':
-            new = net['inputs'][op[1]](g)
-            reshaped = np.shape(new) != np.shape(cur[op[1]])
-            cur[op[1]] = new
-            net['sigs'][op[1]].state = np.array(cur[op[1]], copy=True)
-            if reshaped:        # seeds of the old shape must not survive a change of shape: clean the network first
-                net['net'].reset()
-                log.append('reset(after reshape)')
-        elif op[0] == 'resp':
-            net['net'].response()
-        elif op[0] == 'seed':
-            st = net['sigs'][op[1]].state
-            net['sigs'][op[1]].sensitivity = g.standard_normal(np.shape(st)) if np.ndim(st) else float(g.standard_normal())
-        elif op[0] == 'sens':
-            net['net'].sensitivity()
-        else:
-            net['net'].reset()
-        log.append(op[0] if len(op) == 1 else f'{op[0]}:{op[1]}')
-    failed = []
-    # reset leaves no sensitivity behind
-    net['net'].reset()
-    for k, s in net['sigs'].items():
-        if not close(canon(s.sensitivity), None):
-            failed.append(f'reset leaves a sensitivity on {k}')
-    # final cycle
-    for k in sorted(net['inputs']):
-        if g.random() < 0.5:
-            cur[k] = net['inputs'][k](g)
-            net['sigs'][k].state = np.array(cur[k], copy=True)
-    net['net'].response()
-    # sensitivity() without any seed changes nothing
-    before = {k: canon(s.sensitivity) for k, s in net['sigs'].items()}
-    st_before = {k: canon(s.state) for k, s in net['sigs'].items()}
-    net['net'].sensitivity()
-    for k, s in net['sigs'].items():
-        if not close(canon(s.sensitivity), before[k]) or not close(canon(s.state), st_before[k], 0.0):
-            failed.append(f'sensitivity() without seed changed {k}')
-    seeds = {}
-    for k in net['seedable']:
-        if g.random() < 0.6 or not seeds and k == net['seedable'][-1]:
-            st = net['sigs'][k].state
-            seeds[k] = g.standard_normal(np.shape(st)) if np.ndim(st) else float(g.standard_normal())
-            net['sigs'][k].sensitivity = np.array(seeds[k], copy=True) if np.ndim(st) else seeds[k]
-    net['net'].sensitivity()
-    hist_obs = {k: (canon(s.state), canon(s.sensitivity)) for k, s in net['sigs'].items()}
-    # fresh network, same data, current inputs, same seeds
-    fr = build_lib(pym, fm, recipe, np.random.default_rng(data_seed))
-    for k in sorted(fr['inputs']):
-        fr['sigs'][k].state = np.array(cur[k], copy=True)
-    fr['net'].response()
-    for k, w in seeds.items():
-        fr['sigs'][k].sensitivity = np.array(w, copy=True) if np.ndim(w) else w
-    fr['net'].sensitivity()
-    for k, s in fr['sigs'].items():
-        if not close(hist_obs[k][0], canon(s.state)):
-            failed.append(f'state of {k} differs from the fresh network')
-        if not close(hist_obs[k][1], canon(s.sensitivity)):
-            failed.append(f'sensitivity of {k} differs from the fresh network')
-    return failed, dict(recipe=recipe, seed=int(seed), nops=nops, ops=log, seeds=sorted(seeds))
+# recipes, seed supports, stress plans and random histories live in tools/checks/histzoo.py
+import histzoo
+from histzoo import (make_float_modules, build_lib, run_lib, run_stress, stress_plans, RECIPES, CONTROLS, canon, close,
+                     lib_history, mat_family)
 
 
 # ============================================================================ main
@@ -715,34 +407,52 @@ def run(ctx):
     # ---- purity validation on library networks (history run vs fresh run of the implementation)
     pv = {}
     g = np.random.default_rng(ctx.seed)
-    reps = 20 if ctx.quick() else 150
+    reps = 12 if ctx.quick() else 120
+    sreps = 1 if ctx.quick() else 6
+    corpus_lib = []
+    for p in sorted(glob.glob(os.path.join(vlib.ROOT, 'corpus', 'C03', '*.json'))):
+        with open(p) as f:
+            corpus_lib += json.load(f).get('library', [])
     if replaying:
-        todo_lib = [(rp['recipe'], rp['seed'], rp['nops'])] if isinstance(rp, dict) and 'recipe' in rp else []
+        todo_lib = [rp] if isinstance(rp, dict) and 'recipe' in rp else []
     else:
-        todo_lib = [(r, int(g.integers(0, 2 ** 31)), int(g.integers(0, 26))) for r in RECIPES + CONTROLS for _ in range(reps)]
-        # corpus: fixed (recipe, seed, nops) triples, among them the witnesses of fixed defects
-        for p in sorted(glob.glob(os.path.join(vlib.ROOT, 'corpus', 'C03', '*.json'))):
-            with open(p) as f:
-                d = json.load(f)
-            todo_lib = [(c['recipe'], c['seed'], c['nops']) for c in d.get('library', [])] + todo_lib
-    for recipe, seed, nops in todo_lib:
+        # corpus first: fixed random histories and fixed stress plans (witnesses of seeded / fixed defects)
+        todo_lib = [dict(c) for c in corpus_lib]
+        # stress histories: every recipe, every plan (focus piece x regime sequence), on every run
+        for r in RECIPES:
+            probe = build_lib(pym, fm, r, np.random.default_rng(0))
+            nalt = max([len(v) for v in probe['alt'].values()] + [0])
+            for _ in range(sreps):
+                for focus, regs in stress_plans(6, nalt):
+                    todo_lib.append(dict(recipe=r, kind='stress', seed=int(g.integers(0, 2 ** 31)), focus=focus, regimes=list(regs)))
+        todo_lib += [dict(recipe=r, kind='random', seed=int(g.integers(0, 2 ** 31)), nops=int(g.integers(0, 26)))
+                     for r in RECIPES + CONTROLS for _ in range(reps)]
+    for job in todo_lib:
+        recipe, kind = job['recipe'], job.get('kind', 'random')
         try:
-            failed, desc = run_lib(pym, fm, recipe, seed, nops)
+            if kind == 'stress':
+                failed, desc = run_stress(pym, fm, recipe, job['seed'], job['focus'], tuple(job['regimes']), stats=ctx.count)
+            else:
+                failed, desc = run_lib(pym, fm, recipe, job['seed'], job['nops'], stats=ctx.count)
         except Exception as e:
             if 'sparse' in recipe and 'eigensolve' in recipe and 'singular' in str(e):
                 # known finding K02 (C01): sparse eigenvector sensitivities factorise a singular matrix; not a C03 matter
                 pv.setdefault(recipe, dict(histories=0, differing=0)).setdefault('skipped_K02', 0)
                 pv[recipe]['skipped_K02'] += 1
                 continue
-            failed, desc = [f'history raised {type(e).__name__}: {str(e)[:200]}'], dict(recipe=recipe, seed=seed, nops=nops)
+            failed, desc = [f'history raised {type(e).__name__}: {str(e)[:200]}'], dict(job)
         ctx.search_evaluations += 1
-        d = pv.setdefault(recipe, dict(histories=0, differing=0))
+        ctx.count('library:' + kind)
+        d = pv.setdefault(recipe, dict(histories=0, differing=0, stress=0))
         d['histories'] += 1
+        if kind == 'stress':
+            d['stress'] = d.get('stress', 0) + 1
         if failed:
             d['differing'] += 1
             if not recipe.startswith('control:'):
                 ctx.violation('impl-violates', recipe, 'history run equals fresh run', 'library network', desc,
-                              expected='fresh network result (1e-9 relative)', got=failed[:6])
+                              expected='fresh network result (1e-9 relative; iterative solvers and singular adjoint systems: '
+                                       'the tolerance of the recipe)', got=failed[:6])
     # named witnesses
     for name, fn in () if (replaying and not (isinstance(rp, dict) and 'witness' in rp)) else (('F16 LinSolve number of right-hand sides changes', witness_f16),
                      ('F12 SystemOfEquations/StaticCondensation respond twice', witness_f12)):
